@@ -43,6 +43,7 @@ import (
 	"encoding/json"
 	"fmt"
 	"os"
+	"sync/atomic"
 	"testing"
 	"time"
 )
@@ -85,11 +86,22 @@ func TestVPReplay(t *testing.T) {
 			}()
 			h()
 		}()
-		select {
-		case s := <-done:
-			fmt.Println(s)
-		case <-time.After(4 * time.Second):
-			fmt.Println("VP-DEADLOCK")
+		// watchdog: 4 s, plus whatever a harness primitive that really waits (vpCtxExpire) asked for
+		wait := 4 * time.Second
+	watch:
+		for {
+			select {
+			case s := <-done:
+				fmt.Println(s)
+				break watch
+			case <-time.After(wait):
+				if extra := atomic.SwapInt64(&vpWatchdogExtra, 0); extra > 0 {
+					wait = time.Duration(extra)
+					continue
+				}
+				fmt.Println("VP-DEADLOCK")
+				break watch
+			}
 		}
 		fmt.Printf("VP-END %d\n", i)
 	}
